@@ -10,6 +10,7 @@ import (
 	"sort"
 	"strconv"
 	"strings"
+	"syscall"
 	"time"
 
 	"github.com/benhoyt/goawk/interp"
@@ -44,10 +45,12 @@ type c13Scn struct {
 	BufSize int    `json:"bufsize,omitempty"`
 	CRLF    bool   `json:"crlf,omitempty"`
 	// faults
-	HasFail   bool   `json:"has_fail,omitempty"`
-	FailAt    int    `json:"fail_at,omitempty"`
-	FlushFail bool   `json:"flush_fail,omitempty"`
-	DevFull   string `json:"devfull,omitempty"`
+	HasFail   bool `json:"has_fail,omitempty"`
+	FailAt    int  `json:"fail_at,omitempty"`
+	FlushFail bool `json:"flush_fail,omitempty"`
+	// FailKind: "" generic error, "epipe" (*PathError with EPIPE, the reader went away), "closedpipe" (io.ErrClosedPipe)
+	FailKind string `json:"fail_kind,omitempty"`
+	DevFull  string `json:"devfull,omitempty"`
 	// Enum "failat": a write failure at every byte offset of the fault-free standard output
 	Enum string `json:"enum,omitempty"`
 	// pre-existing files
@@ -230,7 +233,7 @@ func c13GenOps(r *core.Rand, depth int, kids string, inRule bool) []c13Op {
 			op.Name = core.Pick(r, append([]string{"K1", "nope"}, files...))
 		case k < 68 && kids != "none":
 			op.Kind = "system"
-			op.Name = core.Pick(r, []string{"S1", "S2"})
+			op.Name = core.Pick(r, []string{"S1", "S2", "P1"})
 		case k < 74:
 			op.Kind = "getline-file"
 			op.Name = core.Pick(r, append([]string{"missing"}, files...))
@@ -335,6 +338,7 @@ func (c13Engine) Gen(r *core.Rand, tier string, i int) any {
 		"G1": "emit:g1a\ng1b\n;exit:4",
 		"T1": "emit:333;slurp;emit:33333;exit:1",
 		"T2": "slurp;emit:4444;exit:0",
+		"P1": "append:@A:55555\n;exit:0", // another writer appending to file A (system child)
 	}
 	if r.Chance(1, 20) {
 		sc.Cmds["K1"] = "exit:5" // exits before reading its input
@@ -342,8 +346,10 @@ func (c13Engine) Gen(r *core.Rand, tier string, i int) any {
 	switch f := r.Intn(20); {
 	case f < 4 && kids == "none":
 		sc.Enum = "failat"
+		sc.FailKind = core.Pick(r, []string{"", "", "", "epipe"})
 	case f < 7:
 		sc.HasFail = true
+		sc.FailKind = core.Pick(r, []string{"", "", "epipe", "closedpipe"})
 		sc.FailAt = r.Intn(60)
 		if r.Chance(1, 4) {
 			sc.FailAt = r.Intn(70000)
@@ -467,17 +473,19 @@ func c13Source(sc *c13Scn) (string, map[int]*c13Op) {
 // ---- reference model of the destinations (trace-driven) ----
 
 type c13Model struct {
-	sc      *c13Scn
-	files   map[string]string
-	open    map[string]string // name -> file | cmd | infile | incmd
-	spans   map[string]string // command instance name (K1, K1#2, ...) -> bytes printed to it
-	curInst map[string]string // command name -> instance currently open for output
-	stdout  strings.Builder   // exact expected stdout (program bytes and synchronous system children)
-	stderrE strings.Builder   // 'e' tokens only
-	runErr  bool              // the run must end with an error at the last started operation
-	vals    map[int]float64   // trace index -> expected return value
-	lines   map[int]string    // trace index -> expected line read
-	status  int
+	sc        *c13Scn
+	files     map[string]string
+	open      map[string]string // name -> file | cmd | infile | incmd
+	openTrunc map[string]bool   // file is open and was opened with > (no O_APPEND)
+	skipFile  map[string]bool   // content not determined (another writer wrote into a file open without O_APPEND)
+	spans     map[string]string // command instance name (K1, K1#2, ...) -> bytes printed to it
+	curInst   map[string]string // command name -> instance currently open for output
+	stdout    strings.Builder   // exact expected stdout (program bytes and synchronous system children)
+	stderrE   strings.Builder   // 'e' tokens only
+	runErr    bool              // the run must end with an error at the last started operation
+	vals      map[int]float64   // trace index -> expected return value
+	lines     map[int]string    // trace index -> expected line read
+	status    int
 	// startedBefore[name#n] = number of program stdout bytes printed before that child was started
 	startedAfter map[string]int
 	inst         map[string]int
@@ -568,6 +576,7 @@ func (m *c13Model) apply(idx int, e c13Entry, op *c13Op, complete bool) {
 				return
 			case "":
 				m.open[op.Dest] = "file"
+				m.openTrunc[op.Dest] = op.Redir == ">"
 				if onDevFull {
 					break
 				}
@@ -603,6 +612,18 @@ func (m *c13Model) apply(idx int, e c13Entry, op *c13Op, complete bool) {
 		m.startCmd(op.Name)
 		m.stdout.WriteString(c13Emits(m.sc.Cmds[op.Name]))
 		m.vals[idx] = c13ExitStatus(m.sc.Cmds[op.Name])
+		for _, st := range strings.Split(m.sc.Cmds[op.Name], ";") {
+			if strings.HasPrefix(st, "append:@A:") && m.sc.DevFull != "A" {
+				if m.open["A"] == "file" && m.openTrunc["A"] {
+					// opened with > (no O_APPEND): like any awk, later writes go to the stream's own
+					// offset and may overwrite what the other writer appended - not specified
+					m.skipFile["A"] = true
+				}
+				// system() flushes every stream first, so what the program printed so far is on
+				// disk; the other writer's bytes follow, and later program output follows those
+				m.files["A"] += st[len("append:@A:"):]
+			}
+		}
 	case "getline-file":
 		switch m.open[op.Name] {
 		case "file", "cmd":
@@ -743,6 +764,12 @@ func c13Exec(sc *c13Scn, src string, ops map[int]*c13Op, failAt int, log *core.L
 	// whose chunking is the kernel's business (and, under the scheduler, is logged at release).
 	sink := core.NewSimSink("stdout", nil)
 	sink.FailAt = failAt
+	switch sc.FailKind {
+	case "epipe":
+		sink.FailErr = &os.PathError{Op: "write", Path: "|1", Err: syscall.EPIPE}
+	case "closedpipe":
+		sink.FailErr = io.ErrClosedPipe
+	}
 	stderr := core.NewSimSink("stderr", nil)
 	res.FailedAtTrace = -1
 	var out io.Writer = sink
@@ -806,7 +833,7 @@ func c13Exec(sc *c13Scn, src string, ops map[int]*c13Op, failAt int, log *core.L
 	}
 	sort.Strings(names)
 	for _, name := range names {
-		vars = append(vars, "cmd"+name, name+";"+sc.Cmds[name])
+		vars = append(vars, "cmd"+name, name+";"+strings.ReplaceAll(sc.Cmds[name], "@A", fs.Path("A")))
 	}
 	cfg := &interp.Config{
 		Stdin: nullFile(), Output: out, Error: stderr, Funcs: c13funcs, Environ: []string{}, Vars: vars,
@@ -1047,7 +1074,7 @@ func c13Check(sc *c13Scn, src string, ops map[int]*c13Op, failAt int, res *c13Re
 	// model, driven by the observed trace
 	runModel := func(lastComplete bool) *c13Model {
 		m := &c13Model{sc: sc, files: map[string]string{}, open: map[string]string{}, spans: map[string]string{}, curInst: map[string]string{}, vals: map[int]float64{}, lines: map[int]string{},
-			startedAfter: map[string]int{}, inst: map[string]int{}}
+			startedAfter: map[string]int{}, inst: map[string]int{}, openTrunc: map[string]bool{}, skipFile: map[string]bool{}}
 		for k, v := range sc.Pre {
 			m.files[k] = v
 		}
@@ -1136,7 +1163,7 @@ func c13Check(sc *c13Scn, src string, ops map[int]*c13Op, failAt int, res *c13Re
 		m2 = runModel(false)
 	}
 	for _, name := range []string{"A", "B", "C"} {
-		if name == sc.DevFull {
+		if name == sc.DevFull || m.skipFile[name] {
 			continue
 		}
 		got, gotOK := res.Files[name]
